@@ -21,7 +21,7 @@ import (
 var allInvalid = []string{
 	model.InvAugMissing, model.InvAugLeaf, model.InvAugCollision, model.InvAugCollisionOwn,
 	model.InvUsesCycle, model.InvTypedefCycle, model.InvIdentityCycle,
-	model.InvUnknownType, model.InvUnknownGrouping, model.InvUndefinedBase, model.InvDupSibling,
+	model.InvUnknownType, model.InvUnknownGrouping, model.InvUndefinedBase, model.InvDupSibling, model.InvDupUses,
 	model.InvBadRange, model.InvBadConfig,
 	model.InvDevMissing, model.InvDevAddDefault, model.InvDevDelDefault, model.InvDevDelOther,
 	model.InvDevMinNonList, model.InvDevDelMin, model.InvDevBadType, model.InvDevUnknownKind,
